@@ -7,7 +7,7 @@ import obligations
 
 EXPLANATION = ("(1) set-once: in SharedResultSet::set the store is dominated by state.is_none() and the closure reports `modified` only there; "
                "(2) must-set: every path of Worker::run from run_impl's return to exit passes driver_result.set(error) with exactly that error, and "
-               "run_impl has no Ok return; (3) attribution tables with_driver_error / no_connect / From<quinn::ConnectionError> / "
+               "run_impl has no Ok return; (3) attribution tables ConnectStream::run (how each way the session stream ends is reported) / with_driver_error / no_connect / From<quinn::ConnectionError> / "
                "with_connect_error; (4) every Driver waiter maps queue closure to Err(self.result().await), open_* maps None to NotConnected; "
                "(5) handle drop: the worker select has a branch on driver_result.closed() that returns NotConnected and Driver::init moves only "
                "the setter into the task; (6) panic inventory of the worker and Driver API with structural discharges where the invariant is visible.")
